@@ -66,7 +66,7 @@ func init() {
 	register(&c12{base{
 		id:          "C12",
 		level:       lvlExploration,
-		rule:        "coder mode: for each (shard length, goroutine count, GOMAXPROCS) GenerateParity and ReconstructData (both coders) run with seeded yields/spins/sleeps injected at worker start, slice entry and before every kernel call; bytes are compared with the single-goroutine result, the partition and the worker start/finish ordering actually executed are recorded through the worker hook (observations: a partition that differs from the documented split is counted, not judged); the same workload runs again in the -race build, where a hook announces the assembly kernels' loads/stores to the race detector, and every report in the race log is a violation; create mode: par2.Create and Repair results across goroutine options; cores mode: default goroutine count when the physical core count is unknown. A key is (mode, len, workers, GOMAXPROCS, race-build?); observed_sets.orderings lists the distinct worker start/finish orderings actually seen. Forced shapes: three or more files sharing leading slices (also in the race build); the recovery block with the highest exponent spoiled under a valid hash while every Repair runs with the double check (the outcome must not depend on g). Further forced shapes: a larger, earlier-sorting file storing block 0 again with another payload (the outcome must not depend on g); inputs of 17-40 KiB (also in the race build).. Mode sparse: constructed PAR2-Vandermonde geometries whose reconstruction matrix contains zero coefficients, shards of 64-2000 bytes, g in {1,2,3,8,16}.. A worker process that stops consuming CPU while a case is open (deadlock, lost wake-up) is reported by the driver's blocked-process monitor as non-termination|blocked.. Cases coder-many-missing (100 data shards, 65-72 missing), plain and race build.",
+		rule:        "coder mode: for each (shard length, goroutine count, GOMAXPROCS) GenerateParity and ReconstructData (both coders) run with seeded yields/spins/sleeps injected at worker start, slice entry and before every kernel call; bytes are compared with the single-goroutine result, the partition and the worker start/finish ordering actually executed are recorded through the worker hook (observations: a partition that differs from the documented split is counted, not judged); the same workload runs again in the -race build, where a hook announces the assembly kernels' loads/stores to the race detector, and every report in the race log is a violation; create mode: par2.Create and Repair results across goroutine options; cores mode: default goroutine count when the physical core count is unknown. A key is (mode, len, workers, GOMAXPROCS, race-build?); observed_sets.orderings lists the distinct worker start/finish orderings actually seen. Forced shapes: three or more files sharing leading slices (also in the race build); the recovery block with the highest exponent spoiled under a valid hash while every Repair runs with the double check (the outcome must not depend on g). Further forced shapes: a larger, earlier-sorting file storing block 0 again with another payload (the outcome must not depend on g); inputs of 17-40 KiB (also in the race build).. Mode sparse: constructed PAR2-Vandermonde geometries whose reconstruction matrix contains zero coefficients, shards of 64-2000 bytes, g in {1,2,3,8,16}.. A worker process that stops consuming CPU while a case is open (deadlock, lost wake-up) is reported by the driver's blocked-process monitor as non-termination|blocked.. Cases coder-many-missing (100 data shards, 65-72 missing), plain and race build. Goroutine options 255..65535, 65536, 65537, 2^17, 2^20, 2^31-1 (coder and create/repair); create cases with one byte of the first recovery file altered before Repair (plain and race build).",
 		assumptions: append([]string{"the race detector sees Go code directly and the assembly kernels through the RaceReadRange/RaceWriteRange annotation hook (gf2p16/verif_note_race.go), executed by the goroutine that runs the kernel", "interleavings are those the Go scheduler produced under injected delays on this 16-core machine; they are counted, not enumerated"}, commonAssumptions...),
 		opts:        core.WorkerOpts{CrashIsViolation: true, WallSeconds: 2400, HandlesRaceLog: true},
 	}})
